@@ -4,9 +4,13 @@
   Counts are exact (`Nat`); the threshold test `count < confidence * number_of_samples` and the
   bin edges are generic over `Num` (binary64 in the driver, ℝ in the theorems).
   The histogram itself (`numpy.histogram(samples, bins=100)`) is an input.
+  The three formulas of the function (loop test, bin centre, error) are the terms regenerated from
+  the source on every run (`QExPy/Generated/MCWalk.lean`, translator section `mcwalk`); the walk
+  (`loop`, `canGrow`, `stepAdd`) mirrors the statements, whose shape the same section checks.
 -/
 import QExPy.Num
 import QExPy.FB
+import QExPy.Generated.MCWalk
 
 namespace QExPy
 namespace ModeWalk
@@ -63,7 +67,7 @@ variable {α : Type} [Num α]
 
 /-- `not (count < confidence * number_of_samples)` -/
 def enoughAt (conf : α) (tot : Nat) (count : Nat) : Bool :=
-  !Num.lt (Num.ofNat count : α) (Num.mul conf (Num.ofNat tot))
+  !Gen.modeNotEnough (Num.ofNat count : α) conf (Num.ofNat tot)
 
 /-- `modeWalk n conf = (imax, k)` -/
 def modeWalk (n : List Nat) (conf : α) : Nat × Nat :=
@@ -73,9 +77,8 @@ def modeWalk (n : List Nat) (conf : α) : Nat × Nat :=
 def modeResult (n : List Nat) (edges : List α) (conf : α) : α × α :=
   let (imax, k) := modeWalk n conf
   let e (i : Nat) : α := edges.getD i (Num.ofNat 0)
-  let value := Num.div (Num.add (e imax) (e (imax + 1))) (Num.ofNat 2)
-  let width := Num.div (Num.sub (e (edges.length - 1)) (e 0)) (Num.ofNat n.length)
-  (value, Num.mul (Num.ofNat k) width)
+  let value := Gen.modeValue (e imax) (e (imax + 1))
+  (value, Gen.modeError (Num.ofNat k) (e 0) (e (edges.length - 1)) (Num.ofNat n.length))
 
 end ModeWalk
 end QExPy
